@@ -1,6 +1,6 @@
 //go:build verif
 
-package packet
+package scan
 
 import (
 	"bufio"
